@@ -50,7 +50,7 @@ def build(tier, seed):
     obs = []
     # O1: heading values come from the page's first row, dividers dropped, level order kept
     for levels in ((1, 2) if quick else (1, 2, 3)):
-        sig = ", ".join("a%d: str, b%d: str, da%d: bool, db%d: bool" % (j, j, j, j) for j in range(levels)) + ", start: int"
+        sig = ", ".join("a%d: str, b%d: str, da%d: bool, db%d: bool" % (j, j, j, j) for j in range(levels)) + ", start: int, rev: bool"
         pre = ["len(a%d) == 1 and len(b%d) == 1" % (j, j) for j in range(levels)] + ["0 <= start <= 2"]
         cols = "{" + ", ".join("'l%d': [DIV if da%d else a%d, DIV if db%d else b%d]" % (j, j, j, j, j) for j in range(levels)) + "}"
         obs.append(Ob(
@@ -58,7 +58,9 @@ def build(tier, seed):
             body=r'''
     cols = %s
     names = list(cols)
-    got = PageByStrategy._get_group_headers(NS(), FakeFrame(cols), names, start)
+    frame_cols = dict((c, cols[c]) for c in (reversed(names) if rev else names))     # frame column order != page_by order
+    frame_cols["v"] = ["x", "y"]
+    got = PageByStrategy._get_group_headers(NS(), FakeFrame(frame_cols), names, start)
     if start >= 2:
         return got == {}
     exp = [(c, cols[c][start]) for c in names if cols[c][start] != DIV]
@@ -66,7 +68,7 @@ def build(tier, seed):
 ''' % cols,
             funcs=["rtflite.pagination.strategies.grouping:PageByStrategy._get_group_headers"],
             stubs=["data frame -> FakeFrame"],
-            bounds="%d page_by level(s), 2 rows, each key a symbolic one-character string or the '-----' divider, start row symbolic" % levels,
+            bounds="%d page_by level(s), 2 rows, each key a symbolic one-character string or the '-----' divider, start row symbolic, frame columns in page_by order or reversed" % levels,
             what="heading values are those of the page's first row, '-----' dropped, page_by order preserved; empty past the end"))
     # O2: hierarchical re-rendering at in-page boundaries (2 and 3 levels)
     shapes = [(2, 2, (1,)), (2, 3, (1,)), (2, 3, (2,)), (2, 3, (1, 2)), (3, 2, (1,)), (3, 3, (2,))]
@@ -198,6 +200,21 @@ def build(tier, seed):
             funcs=F_META, stubs=["data frame -> FakeFrame", "get_string_width -> constant"],
             bounds="%d rows, symbolic one-character subline keys, nrow/reserved unbounded" % n,
             what="a change of subline_by value always starts a new page, so each page carries one subline group"))
+    # O7: divider values never cost a row
+    obs.append(Ob(
+        oid="O7.dividers_cost_nothing", sig="k: str, d0: bool, d1: bool, d2: bool, nrow: int, add: int", pre=["len(k) == 1", "nrow >= 1 and add >= 0"],
+        header=HDR5, timeout=T,
+        body=r'''
+    G = [DIV if d else k for d in (d0, d1, d2)]
+    rows = metadata({"g": G, "v": ["x"] * 3}, [1.0], ["g"], None, [0], nrow, add, False, lambda t, f, s: 0.5)
+    for i, r in enumerate(rows):
+        if G[i] == DIV and (r["pageby_header_rows"] != 0 or (r.get("continuation_header_rows") or 0) != 0 or r["total_rows"] != 1):
+            return False
+    return True
+''',
+        funcs=F_META, stubs=["data frame -> FakeFrame", "get_string_width -> constant"],
+        bounds="3 rows, one page_by level, each key a symbolic character or the '-----' divider, nrow/reserved unbounded",
+        what="a row of a '-----' divider group is budgeted with its data lines only: no heading row, no repeated-heading row"))
     # O6: paginate() attaches the heading values of the page's first row and the in-page boundaries to every page
     for which in (1, 2):
         obs.append(Ob(
